@@ -209,7 +209,7 @@ def run_shard(desc, ctx):
         ctx.mon('probe:offset-bookkeeping')
         prev = last.get(id(s))
         if prev is not None and prev[0] is s and s.offset != prev[1] + len(t):
-            ctx.violation('probe:offset-bookkeeping', {'probe': 'OutputStream._push'}, {'before': prev[1], 'pushed': len(t), 'after': s.offset})
+            ctx.anomaly('probe:offset-bookkeeping', {'probe': 'OutputStream._push', 'before': prev[1], 'pushed': len(t), 'after': s.offset})
         last.clear()
         last[id(s)] = (s, s.offset)
 
@@ -222,7 +222,7 @@ def run_shard(desc, ctx):
         ctx.mon('probe:field-monotone')
         prev = fields.get(id(st))
         if prev is not None and prev[0] is st and st.field < prev[1]:
-            ctx.violation('probe:field-decreased', {'probe': 'push_tokens'}, {'before': prev[1], 'after': st.field})
+            ctx.anomaly('probe:field-decreased', {'probe': 'push_tokens', 'before': prev[1], 'after': st.field})
         fields.clear()
         fields[id(st)] = (st, st.field)
 
